@@ -25,6 +25,12 @@ CLAIMED["C11"] = ("All 65,536 multiplier pairs vs an independent GF(2^8) multipl
 CLAIMED["C14"] = ("All 2^32 unsigned and all signed |v| <= 2^31-1 var-ints (canonical form, exact read-back, consumed length, arbitrary trailing bytes); float writers for "
                   "every x = I + K/128^p (p = 1, 2; 3 in thorough) as exact dyadic rationals; info-time for all in-range field values against the decoding slices read "
                   "from the XML view's AST. The latitude/longitude clause is NOT decided (decimal rounding; see evidence.outside_bounds).", "6/C14")
+CLAIMED["C03"] = ("Every PDU decoder runs on ALL right-length bit strings (symbolic bits): documented error or an object whose serialisation is a decode-encode fixed point, "
+                  "every field stable; the object is rebuilt through the constructor from its field values and must parse back field-equal and bit-equal; flags the decoder "
+                  "never varies are forced both ways; every element enum over its full width; GPS-info raw coordinates via exact dyadic floats.", "6/C03")
+CLAIMED["C04"] = ("For every received slot-type / EMB word and every received data-header, PI-header, short-LC, confirmed rate-x block and 12-octet HRNP frame the indicator is "
+                  "compared with an independent truth predicate over the received bits; library-generated PDUs parse back with the indicator true. Detection follows with C05's "
+                  "burst/weight corollaries. Two families of genuine deviations are listed as known findings (zero check field means generate; check evaluated on normalised fields).", "6/C04")
 NOT_YET = {}
 props = [json.loads(l) for l in open(os.path.join(V, "properties.jsonl"))]
 checks = []
